@@ -48,6 +48,7 @@ Apply(s, e) ==
             ELSE LET t == s.target[e.r]   s2 == [s EXCEPT !.done = @ \cup {e.r}] IN
                  IF t = "scripted"
                  THEN IF s.outcome[e.r] = "none" THEN No(s, "a request completed although nothing had happened to it")
+                      ELSE IF Verdict(s.outcome[e.r]) # "ok" /\ e.reply = "ok" THEN No(s, "'connected' was reported although the open did not succeed")
                       ELSE IF Verdict(s.outcome[e.r]) = e.verdict THEN Ok(s2)
                       ELSE No(s, "the reported verdict is not the first outcome of the request")
                  ELSE IF t = "accept"
